@@ -770,3 +770,100 @@ def show_v(v):
     if v[0] == 'T':
         return '%s(%s)' % (v[1], ' '.join(show_v(c) for c in v[2]))
     return '<%s>(%s)' % (v[1], ' '.join(show_v(c) for c in v[2]))
+
+
+# ---------------------------------------------------------------------------------------------
+# CYK: lark's CNF grammar and CNF parse trees as Coq terms of Shape/Cnf.v
+# ---------------------------------------------------------------------------------------------
+class CnfNames:
+    """maps lark's generated non-terminal names back to the structured names of the model; raises
+    ValueError when the encoding is not injective on this grammar"""
+
+    def __init__(self, lark_inst):
+        from lark.parsers.cyk import T, NT
+        self.rule_idx = {id(r): i for i, r in enumerate(lark_inst.rules)}
+        self.prefix = {}
+        self.term = {}
+        for i, r in enumerate(lark_inst.rules):
+            rhs = list(r.expansion)
+            if len(rhs) > 1 and any(isinstance(x, T) for x in rhs):
+                rhs = [NT('__T_%s' % str(x)) if isinstance(x, T) else x for x in rhs]
+            for x in r.expansion:
+                if isinstance(x, T):
+                    nm = '__T_%s' % str(x)
+                    if self.term.setdefault(nm, str(x.name)) != str(x.name):
+                        raise ValueError('terminal helper name clash ' + nm)
+            if len(rhs) > 2:
+                p = '__SP_%s' % (str(r.origin) + '__' + '_'.join(str(x) for x in rhs))
+                if p in self.prefix:
+                    raise ValueError('split helper name clash ' + p)
+                self.prefix[p] = i
+
+    def nt(self, name):
+        name = str(name)
+        if name in self.term:
+            return '(NTerm %s)' % S(self.term[name])
+        if name.startswith('__SP_'):
+            p, _, i = name.rpartition('_')
+            if p in self.prefix and i.isdigit():
+                return '(NSplit %s %s)' % (N(self.prefix[p]), N(int(i)))
+            raise ValueError('unknown split helper ' + name)
+        return '(NOrig %s)' % S(name)
+
+    def sym(self, x):
+        from lark.parsers.cyk import T
+        return '(CT %s)' % S(str(x.name)) if isinstance(x, T) else '(CN %s)' % self.nt(x.name)
+
+    def alias(self, a):
+        if a == 'Term':
+            return 'ATermA'
+        if a == 'Split':
+            return 'ASplitA'
+        return '(ARule %s)' % N(self.rule_idx[id(a)])
+
+    def rule(self, r):
+        sk = getattr(r, 'skipped_rules', [])
+        return '(mkC %s %s %s %s)' % (self.nt(r.lhs.name), L([self.sym(x) for x in r.rhs]), self.alias(r.alias),
+                                      L(['(%s, %s)' % (self.nt(s.lhs.name), self.alias(s.alias)) for s in sk]))
+
+    def tree(self, n):
+        """RuleNode / T(token) -> ctree"""
+        from lark.parsers.cyk import RuleNode
+        if isinstance(n, RuleNode):
+            return '(CNode %s %s)' % (self.rule(n.rule), L([self.tree(c) for c in n.children]))
+        tok = n.name
+        return '(CLeaf %s %s)' % (S(str(tok.type)), S(str(tok)))
+
+    def otree(self, n):
+        """reverted RuleNode tree -> otree (rule indices via the alias, as Parser._to_tree does)"""
+        from lark.parsers.cyk import RuleNode
+        if isinstance(n, RuleNode):
+            return '(ONode %s %s)' % (N(self.rule_idx[id(n.rule.alias)]), L([self.otree(c) for c in n.children]))
+        tok = n.name
+        return '(OLeaf %s %s)' % (S(str(tok.type)), S(str(tok)))
+
+
+def cyk_capture(lark_inst, text):
+    """run lark's CYK parser, capturing the CNF parse tree handed to revert_cnf and what it returned"""
+    from lark.parsers import cyk
+    cap = {}
+    orig = cyk.revert_cnf
+    depth = [0]
+
+    def wrapped(node):
+        depth[0] += 1
+        try:
+            if depth[0] == 1:
+                cap['cnf'] = node
+            res = orig(node)
+            if depth[0] == 1:
+                cap['reverted'] = res
+            return res
+        finally:
+            depth[0] -= 1
+    cyk.revert_cnf = wrapped
+    try:
+        cap['tree'] = lark_inst.parse(text)
+    finally:
+        cyk.revert_cnf = orig
+    return cap
